@@ -40,8 +40,11 @@ S == 0..MaxS
 (* Changesets offered to the node for this actor *)
 FullChunks == [k : {"full"}, v : V, lo : S, hi : S, last : Lasts, has : BOOLEAN]
 EmptyChunks == [k : {"empty"}, lo : V, hi : V]
+(* an honest origin gives a version ONE last_seq: with several admissible values, version v has the ((v-1) mod n)+1-th *)
+LastFor(v) == LET n == Cardinality(Lasts) idx == ((v - 1) % n) + 1
+              IN CHOOSE x \in Lasts : Cardinality({y \in Lasts : y < x}) = idx - 1
 WellFormed(c) == IF c.k = "empty" THEN c.lo <= c.hi
-                 ELSE /\ c.lo <= c.hi /\ c.hi <= c.last
+                 ELSE /\ c.lo <= c.hi /\ c.hi <= c.last /\ c.last = LastFor(c.v)
                       \* a partial chunk without rows is only produced next to chunks with rows; a
                       \* complete changeset without changes is the "cleared" encoding
                       /\ (c.has \/ (c.lo = 0 /\ c.hi = c.last))
